@@ -378,8 +378,9 @@ func realScan(d db.DB, prefix []byte) ([][2][]byte, error) {
 	defer it.Release()
 	var out [][2][]byte
 	for it.Next() {
-		if it.Value() == nil { // tombstone surfaced by the frontier iterator: skipped by every caller
-			continue
+		if it.Value() == nil {
+			// a deleted key surfaced as an entry: callers that parse the value crash on it
+			return nil, errTombstone
 		}
 		k := append([]byte{}, it.Key()...)
 		v := append([]byte{}, it.Value()...)
@@ -387,6 +388,8 @@ func realScan(d db.DB, prefix []byte) ([][2][]byte, error) {
 	}
 	return out, it.Error()
 }
+
+var errTombstone = fmt.Errorf("scan surfaced a deleted key as an entry with a nil value")
 
 func fmtScan(s [][2][]byte) string {
 	var b bytes.Buffer
